@@ -216,7 +216,11 @@ def propagated(p, e):
 def _own_facts(ix, p, m):
     out = set()
     for (atom, outcome, _bb, _ln) in p.conds:
-        out.add((ix.inline(sym.subst(atom, m)) if m else ix.inline(atom), outcome))
+        a = ix.inline(sym.subst(atom, m)) if m else ix.inline(atom)
+        # a bool helper / closure that was inlined may bring its own negation: keep atoms in canonical polarity
+        while tag(a) == "op" and payload(a)[0] == "not" and kids(a) and outcome in (True, False):
+            a, outcome = kids(a)[0], (not outcome)
+        out.add((a, outcome))
     for e in p.events:
         if e.name in ROLE_LIBS and propagated(p, e):
             h = sym.mk("happened", (e.name,), tuple(e.args))
